@@ -355,10 +355,11 @@ func c11Run(in c11In) CaseOut {
 		tags = append(tags, "col-"+in.Col)
 	}
 	_, _, producer := c11Method(in.Kind)
-	// the suspected divergence: a dynamic exchange stream whose input is castable
-	// to (or refused by) the RUNTIME input schema but not equal to it
+	// a dynamic exchange stream whose input is castable to (or refused by) the
+	// RUNTIME input schema but not equal to it: the case the code got wrong over
+	// HTTP before the call token carried the runtime input schema
 	if in.Kind == "dyn_x" && in.Col != "i64" && in.Col != "" && len(in.Ins) > 0 && in.Script.Init.Err == nil {
-		tags = append(tags, "finding-dyn-exchange-cast")
+		tags = append(tags, "dyn-exchange-runtime-cast")
 	}
 	for _, t := range in.Script.Turns {
 		if t.Act == "err" || t.Act == "emit2" || t.Act == "noemit" || (!producer && (t.Act == "finish" || t.Act == "emit_finish")) {
